@@ -200,7 +200,7 @@ def run(rep, tier, seed):
     rejected_ids = {x[0] for x in rejects}
     missing = [p["id"] for p in probes if p["id"] not in rejected_ids]
     if missing or not probes:
-        raise core.MachineryError("P accepted corrupted traces: %s" % missing[:5])
+        core.probe_fail(rejects, "P accepted corrupted traces: %s" % missing[:5])
     rep.traces = len(traces)
     rep.extra["probes_rejected"] = len(probes)
     for tid, clause, _ in rejects:
